@@ -5,7 +5,8 @@ From TS Require Import Model.Str Model.Outcome Model.Unicode Model.Syntax Model.
                        Model.Lang.Scala Model.Lang.Go Model.Lang.Python.
 From TS Require Import Spec.SerdeCase Spec.C16Spec Spec.Serde Spec.C03Spec Spec.C01Spec.
 From TS Require Import Model.Reconcile.
-From TS Require Proofs.C01 Proofs.C01Front Proofs.C01Layout.
+From Coq Require Import Permutation.
+From TS Require Proofs.C01 Proofs.C01Front Proofs.C01Layout Proofs.C01File.
 Import ListNotations.
 Local Open Scope N_scope.
 From TS Require Props.C01.
@@ -106,3 +107,47 @@ Goal exists rit, Proofs.C01Front.parses uc_exec (fun _ => None) [] Proofs.C01Fro
               dom_C01 Scala [[lit "user-id"; lit "class"; lit "in"]] = false.
 Proof. exact Props.C01.C01_nonvacuous. Qed.
 Print Assumptions Props.C01.C01_nonvacuous.
+Goal forall (T : list str) (l : lang) (it : item) (expected : list (list str)),
+    l <> Scala -> src_dom T it = true -> src_groups T it = Some expected -> dom_C01 l expected = true.
+Proof. exact Props.C01.C01_source_domain_implies_key_domain. Qed.
+Print Assumptions Props.C01.C01_source_domain_implies_key_domain.
+Goal forall (uc : unicode), unicode_ok uc -> forall (tstr : str -> option ty) (T : list str)
+         (l : lang) (it : item) (rit : ritem) (expected : list (list str)) (gs : list (list member)),
+    l <> Scala ->
+    Proofs.C01Front.parses uc tstr T it rit -> Proofs.C01Front.c01_shape it rit -> src_dom T it = true ->
+    src_groups T it = Some expected ->
+    Proofs.C01.groups_fit l (ir_groups rit) gs ->
+    good_groups_C01 l expected gs = true.
+Proof. exact Props.C01.C01_field_keys_binding_languages. Qed.
+Print Assumptions Props.C01.C01_field_keys_binding_languages.
+Goal forall uc cfg pd fd, ts_file_decls uc cfg pd = Ok fd ->
+    exists items, Permutation items (items_of pd) /\
+                  Proofs.C01.groups_fit TypeScript (flat_map ir_groups items) (obs_groups (fd_decls fd)).
+Proof. exact Props.C01.C01_file_typescript. Qed.
+Print Assumptions Props.C01.C01_file_typescript.
+Goal forall uc cfg pd fd, kt_file_decls uc cfg pd = Ok fd ->
+    exists items, Permutation items (items_of pd) /\
+                  Proofs.C01.groups_fit Kotlin (flat_map ir_groups items) (obs_groups (fd_decls fd)).
+Proof. exact Props.C01.C01_file_kotlin. Qed.
+Print Assumptions Props.C01.C01_file_kotlin.
+Goal forall uc cfg pd fd, sw_file_decls uc cfg pd = Ok fd ->
+    exists items, Permutation items (items_of pd) /\
+                  Proofs.C01.groups_fit Swift (flat_map ir_groups items) (obs_groups (fd_decls fd)).
+Proof. exact Props.C01.C01_file_swift. Qed.
+Print Assumptions Props.C01.C01_file_swift.
+Goal forall uc cfg pd fd, sc_file_decls uc cfg pd = Ok fd ->
+    Proofs.C01.groups_fit Scala
+      (flat_map ir_groups (map ItAlias (p_aliases pd) ++ map ItStruct (p_structs pd) ++ map ItEnum (p_enums pd)))
+      (obs_groups (fd_decls fd)).
+Proof. exact Props.C01.C01_file_scala. Qed.
+Print Assumptions Props.C01.C01_file_scala.
+Goal forall uc cfg pd fd, go_file_decls uc cfg pd = Ok fd ->
+    exists items, Permutation items (items_of pd) /\
+                  Proofs.C01.groups_fit Go (flat_map ir_groups items) (obs_groups (fd_decls fd)).
+Proof. exact Props.C01.C01_file_go. Qed.
+Print Assumptions Props.C01.C01_file_go.
+Goal forall uc cfg pd fd, py_file_decls uc cfg pd = Ok fd ->
+    exists items, Permutation items (items_of pd) /\
+                  Proofs.C01.groups_fit Python (flat_map ir_groups items) (obs_groups (fd_decls fd)).
+Proof. exact Props.C01.C01_file_python. Qed.
+Print Assumptions Props.C01.C01_file_python.
